@@ -9,3 +9,79 @@ func VerifUnionNewRBT() MemBuffer { return newRbtDBWithContext() }
 
 // VerifUnionNewART returns the ART backed MemBuffer.
 func VerifUnionNewART() MemBuffer { return newArtDBWithContext() }
+
+// VerifUnionFlagged is one entry of IterWithFlags / IterReverseWithFlags.
+type VerifUnionFlagged struct {
+	K    []byte
+	F    uint16
+	V    []byte
+	HasV bool
+}
+
+type verifUnionFlagIter interface {
+	Valid() bool
+	Key() []byte
+	Value() []byte
+	Next() error
+	Close()
+	HasValue() bool
+}
+
+func verifUnionDrainFlags(it verifUnionFlagIter, flags func() uint16) []VerifUnionFlagged {
+	var l []VerifUnionFlagged
+	for n := 0; it.Valid() && n < 1000000; n++ {
+		e := VerifUnionFlagged{K: append([]byte{}, it.Key()...), F: flags(), HasV: it.HasValue()}
+		if e.HasV {
+			e.V = append([]byte{}, it.Value()...)
+		}
+		l = append(l, e)
+		if it.Next() != nil {
+			break
+		}
+	}
+	it.Close()
+	return l
+}
+
+// VerifUnionIterWithFlags drains IterWithFlags(lo, hi) (rev: IterReverseWithFlags(hi)) of an ART or RBT buffer.
+func VerifUnionIterWithFlags(b MemBuffer, lo, hi []byte, rev bool) ([]VerifUnionFlagged, bool) {
+	switch db := b.(type) {
+	case *artDBWithContext:
+		if rev {
+			it := db.ART.IterReverseWithFlags(hi)
+			return verifUnionDrainFlags(it, func() uint16 { return uint16(it.Flags()) }), true
+		}
+		it := db.ART.IterWithFlags(lo, hi)
+		return verifUnionDrainFlags(it, func() uint16 { return uint16(it.Flags()) }), true
+	case *rbtDBWithContext:
+		if rev {
+			it := db.RBT.IterReverseWithFlags(hi)
+			return verifUnionDrainFlags(it, func() uint16 { return uint16(it.Flags()) }), true
+		}
+		it := db.RBT.IterWithFlags(lo, hi)
+		return verifUnionDrainFlags(it, func() uint16 { return uint16(it.Flags()) }), true
+	}
+	return nil, false
+}
+
+// VerifUnionWriteSeq returns ART.WriteSeqNo (false for buffers without one).
+func VerifUnionWriteSeq(b MemBuffer) (int, bool) {
+	if db, ok := b.(*artDBWithContext); ok {
+		return db.ART.WriteSeqNo, true
+	}
+	return 0, false
+}
+
+// VerifUnionHistory collects the versions SelectValueHistory walks through (newest first).
+func VerifUnionHistory(b MemBuffer, k []byte) ([][]byte, error) {
+	var l [][]byte
+	pred := func(v []byte) bool { l = append(l, append([]byte{}, v...)); return false }
+	var err error
+	switch db := b.(type) {
+	case *artDBWithContext:
+		_, err = db.ART.SelectValueHistory(k, pred)
+	case *rbtDBWithContext:
+		_, err = db.RBT.SelectValueHistory(k, pred)
+	}
+	return l, err
+}
